@@ -55,6 +55,11 @@ func (jenny validationMethods) generateForObject(buffer *strings.Builder, contex
 				return resolvesToConstraints(resolved)
 			}
 
+			// references to named scalars: the constraints live on the referred object
+			if resolved.IsScalar() {
+				return len(resolved.AsScalar().Constraints) != 0
+			}
+
 			return resolved.IsStruct()
 		}
 
